@@ -91,17 +91,27 @@ func (l *Lexer) NextToken() (lexer.Token, error) {
 	for curr, next := 0, 0; ; curr = next {
 		// Read the next character from the input stream.
 		r, err := l.in.Next()
-		if err != nil {
+
+		switch {
+		case err == nil:
+			// Keep running the DFA through the input symbols.
+			next = advanceDFA(curr, r)
+
+			if next == errorState {
+				// Retract one character, as the last read character did not belong to the current token.
+				l.in.Retract()
+			}
+
+		case errors.Is(err, io.EOF) && curr != 0:
+			// The input ends in the middle of a lexeme, which still needs to be evaluated
+			// (an unterminated comment, string, or pattern is an error, not the end of the input).
+			next = errorState
+
+		default:
 			return lexer.Token{}, err
 		}
 
-		// Keep running the DFA through the input symbols.
-		next = advanceDFA(curr, r)
-
 		if next == errorState {
-			// Retract one character, as the last read character did not belong to the current token.
-			l.in.Retract()
-
 			// Evaluate the final state of the DFA.
 			token := l.evalDFA(curr)
 
